@@ -7,3 +7,4 @@ git apply /verif/seeded/$id/patch.diff || exit 2
 sh /verif/tools/devbuild_cluster.sh 20
 SHOW=${SHOW:-2} python3 /verif/tools/devdiff_cluster.py $seed $count
 git apply -R /verif/seeded/$id/patch.diff
+sh /verif/tools/devbuild_cluster.sh 3 >/dev/null 2>&1   # leave a clean binary behind
